@@ -2,10 +2,12 @@ package props
 
 import (
 	"crypto/x509"
+	"crypto/x509/pkix"
 	"fmt"
 	"math/big"
 	mrand "math/rand"
 	"sort"
+	"time"
 
 	"verifharness/mon"
 	"verifharness/world"
@@ -283,6 +285,19 @@ func c05(x *mon.Ctx) {
 			add(w, "revoked-with-reason-code", fmt.Sprintf("%s/%d", tname, rc), "reject", on)
 		}
 	}
+	// ---- odd revocation dates on the revoking entry (year 1 = Go's zero time, far future, before thisUpdate): listed is listed
+	for tname, serial := range cw.targets {
+		for dn, dt := range map[string]time.Time{"zero-time": {}, "year-9999": time.Date(9999, 12, 31, 23, 59, 59, 0, time.UTC), "unix-epoch": time.Unix(0, 0).UTC(), "after-verification-time": world.Epoch.Add(3000 * world.Day)} {
+			w := base.Clone()
+			es := []pkix.RevokedCertificate{{SerialNumber: big.NewInt(5), RevocationTime: this}, {SerialNumber: serial, RevocationTime: dt}}
+			if tname == "leaf" {
+				w.PckCRL = world.MkCRLLegacy(base.PKI.Inter, this, next, es)
+			} else {
+				w.RootCRL = world.MkCRLLegacy(base.PKI.Root, this, next, es)
+			}
+			add(w, "revoked-with-odd-date", tname+"/"+dn, "reject", on)
+		}
+	}
 	// ---- CA key roll-over: a second "Intel SGX PCK Platform CA" certificate with another key, genuinely issued by the trusted
 	//      root. Its CRL, served with its own (valid) issuer chain, says nothing about certificates issued under the first key.
 	{
@@ -483,6 +498,7 @@ func c05(x *mon.Ctx) {
 	x.Require("root-crl-signed-by", 0, 6, 6)
 	x.Require("pck-crl-of-rolled-over-ca-key", 0, 6, 6)
 	x.Require("revoked-with-reason-code", 0, 40, 40)
+	x.Require("revoked-with-odd-date", 0, 16, 16)
 	x.Require("crl-with-other-authority-key-id/revoked", 0, 4, 4)
 	x.Require("crl-with-other-authority-key-id/not-revoked", 4, 0, 4)
 	x.Require("pck-crl-endpoint", 0, 10, 10)
